@@ -68,7 +68,14 @@ type Params struct {
 	ImprintHash string `json:",omitempty"` // tst: sha256 (default) | sha1 | sha384 | sha512
 	NonceHex    string `json:",omitempty"`
 	ESS         string `json:",omitempty"` // tst: v2 (default) | v1 | none
+	// Quirk: encodings DER discourages but Go's parser accepts.
+	// empty-certs: certificates [0] present with no members (needs Certs=none);
+	// empty-crls: crls [1] present with no members (needs CRLs=no);
+	// empty-unsigned: unsignedAttrs [1] present with no members (needs Unsigned=none)
+	Quirk string `json:",omitempty"`
 }
+
+var Quirks = []string{"empty-certs", "empty-crls", "empty-unsigned"}
 
 func ParamsAt(idx []int) Params {
 	v := func(i int) string { return Dims[i].Values[idx[i]] }
@@ -84,6 +91,9 @@ func (p Params) String() string {
 	}
 	if p.ESS != "" {
 		s += " ess=" + p.ESS
+	}
+	if p.Quirk != "" {
+		s += " quirk=" + p.Quirk
 	}
 	if p.ImprintHash != "" {
 		s += " imprint=" + p.ImprintHash
@@ -513,6 +523,10 @@ func (g *Gen) Build(p Params) *Built {
 				items = append(items, Ctx(1, true, attr(oidTSToken, g.Token(sig, 1, nil))))
 			case "counter":
 				items = append(items, Ctx(1, true, attr(oidCounterSign, g.counterSig(sig))))
+			case "none":
+				if p.Quirk == "empty-unsigned" {
+					items = append(items, Ctx(1, true))
+				}
 			}
 		}
 		infos = append(infos, Seq(items...))
@@ -545,6 +559,9 @@ func (g *Gen) Build(p Params) *Built {
 	switch p.Certs {
 	case "none":
 		hasCerts = false
+		if p.Quirk == "empty-certs" {
+			hasCerts, certs = true, nil
+		}
 	case "leaf":
 	case "3s", "3u", "3x":
 		certs = append(certs, g.F.Inter.Raw, g.F.Root.Raw)
@@ -576,6 +593,8 @@ func (g *Gen) Build(p Params) *Built {
 	}
 	if p.CRLs == "yes" {
 		sd = append(sd, Ctx(1, true, g.F.CRL))
+	} else if p.Quirk == "empty-crls" {
+		sd = append(sd, Ctx(1, true))
 	}
 	sd = append(sd, SetAsGiven(infos...))
 	out := Seq(oidSignedData, Ctx(0, true, Seq(sd...)))
